@@ -890,18 +890,14 @@ def corr_recv(ctx, impl, batches):
             continue
         traces = []
         for side in ("callee", "caller"):
-            c0, rows = r["recv_trace"][side]
-            nviol = sum(1 for x in rows if x[2])
+            c0, rows, overflow = r["recv_trace"][side]
+            nviol = sum(1 for z in rows if z & 4)
             # quick tier: a direction in which nothing was rejected only for every fourth batch
-            if not rows or (ctx.tier != "thorough" and bi % 4 and not nviol):
+            if not len(rows) or overflow or (ctx.tier != "thorough" and bi % 4 and not nviol):
                 continue
-            # one token = one 36-bit primitive integer: objectCounter (12 bits), nesting (8), discarding (1), number (12),
-            # violation (1), kind (2)
-            if any(num >= 4096 or oc >= 4096 or dc + ls >= 255 for _, num, _, oc, dc, ls, _, _ in rows):
-                continue
-            zs = [((((oc << 8 | (dc + ls - 1 + (1 if io else 0))) << 1 | (1 if dc else 0)) << 12 | num) << 3) | (4 if viol else 0) | kind
-                  for kind, num, viol, oc, dc, ls, io, dead in rows]
-            traces.append((side, "(%s, [%s]%%uint63)" % (coq_Z(c0), ";".join(str(z) for z in zs)), len(rows)))
+            # one token = one 36-bit primitive integer (packed by RecvTrace): objectCounter (12 bits), nesting (8), discarding (1),
+            # number (12), violation (1), kind (2)
+            traces.append((side, "(%s, [%s]%%uint63)" % (coq_Z(c0), ";".join(str(z) for z in rows)), len(rows)))
             ctx.hist("recv_trace_violations", nviol)
         q = r["deliveries"]["queue"]
         entries.append((bi, traces, coq_list(["(%d, %s)" % (i, "ReadyFails" if f else "ReadyOk") for i, f in q])))
@@ -945,12 +941,13 @@ Eval vm_compute in map (fun q => map hcode (drain false q)) queues.
                 nbad += 1
                 if nbad <= 2:
                     specs, opts, r = batches[bi]
-                    row = r["recv_trace"][side][1][idx]
+                    z = r["recv_trace"][side][1][idx]
+                    row = [z & 3, (z >> 3) & 4095, bool(z & 4), z >> 24, (z >> 16) & 255, bool((z >> 15) & 1)]
                     ctx.fail("correspondence/receiver-bookkeeping", "the counting receiver of lib/Send.v and Banana.handleData on the %s disagree at "
-                             "token %d of batch %s: real (kind, number, violation, objectCounter, discardCount, len(receiveStack), inOpen) = %s, "
+                             "token %d of batch %s: real (kind, number, violation, objectCounter, nesting, discarding) = %s, "
                              "model (count, depth, discarding, numbers disagree) = %s" % (
-                                 side, idx, json.dumps(specs), list(row[:7]), list(mobs)),
-                             replay=dict(specs=specs, opts=opts, side=side, token=idx, real=list(row[:7]), model=list(mobs)), has_input=False)
+                                 side, idx, json.dumps(specs), row, list(mobs)),
+                             replay=dict(specs=specs, opts=opts, side=side, token=idx, real=row, model=list(mobs)), has_input=False)
         for (bi, _, _), mh in zip(part, qvals):
             ctx.traces += 1
             specs, opts, r = batches[bi]
